@@ -16,8 +16,8 @@ From HPBF Require Import Cell IO Expr BC IR BCWf TV BCWfProofs BCProofs TVProofs
 Import ListNotations.
 Open Scope Z_scope.
 
-Theorem C02_validated_translation : forall w fuse ir (p : bprog) cs e budget,
-  tv_check w fuse ir (bp_code p) cs = true ->
+Theorem C02_validated_translation : forall w fuse ir (p : bprog) zs cs e budget,
+  tv_check w fuse ir (bp_code p) zs cs = true ->
   forall fuel si',
   (ir_run w e false budget fuel ir = Done si' ->
      exists fuel' sb', bc_run w e false budget fuel' p = Done sb' /\ bc_io sb' = ir_io si') /\
@@ -27,13 +27,13 @@ Proof. exact tv_sound. Qed.
 Print Assumptions C02_validated_translation.
 
 (** the event trace is part of the I/O state *)
-Theorem C02_same_trace : forall w fuse ir (p : bprog) cs e budget,
-  tv_check w fuse ir (bp_code p) cs = true ->
+Theorem C02_same_trace : forall w fuse ir (p : bprog) zs cs e budget,
+  tv_check w fuse ir (bp_code p) zs cs = true ->
   forall fuel si', ir_run w e false budget fuel ir = Done si' ->
   exists fuel' sb', bc_run w e false budget fuel' p = Done sb' /\ trace (bc_io sb') = trace (ir_io si').
 Proof.
-  intros w fuse ir p cs e budget H fuel si' E.
-  destruct (proj1 (tv_sound w fuse ir p cs e budget H fuel si') E) as (g & sb' & E1 & E2).
+  intros w fuse ir p zs cs e budget H fuel si' E.
+  destruct (proj1 (tv_sound w fuse ir p zs cs e budget H fuel si') E) as (g & sb' & E1 & E2).
   exists g, sb'. split; [exact E1|rewrite E2; reflexivity].
 Qed.
 Print Assumptions C02_same_trace.
@@ -51,7 +51,7 @@ Example C02_accepts_a_loop :
     (0, [IIn 0; ICalc [(1, [(3, [])])];
          ILoop 0 0 [ICalc [(2, [(1, [1]); (1, [2])])]; IOut 2; IIn 0; ICalc [(1, [])]] false; IOut 2])
     [Inp 0; Copy (Mem 1) (Imm 3); BrZ 0 6; Add (Mem 2) (Mem 2) (Mem 1); Outp 2; Inp 0;
-     Copy (Mem 1) (Imm 0); BrNZ 0 (-4); Outp 2]
+     Copy (Mem 1) (Imm 0); BrNZ 0 (-4); Outp 2] [0; 1; 2]
     [CLoop 3 7 {| f_c := []; f_d := []; f_t := []; f_nz := [] |}] = true.
 Proof. vm_compute. reflexivity. Qed.
 
@@ -61,7 +61,7 @@ Example C02_rejects_a_wrong_operand :
     (0, [IIn 0; ICalc [(1, [(3, [])])];
          ILoop 0 0 [ICalc [(2, [(1, [1]); (1, [2])])]; IOut 2; IIn 0; ICalc [(1, [])]] false; IOut 2])
     [Inp 0; Copy (Mem 1) (Imm 3); BrZ 0 6; Add (Mem 2) (Mem 2) (Mem 0); Outp 2; Inp 0;
-     Copy (Mem 1) (Imm 0); BrNZ 0 (-4); Outp 2]
+     Copy (Mem 1) (Imm 0); BrNZ 0 (-4); Outp 2] [0; 1; 2]
     [CLoop 3 7 {| f_c := []; f_d := []; f_t := []; f_nz := [] |}] = false.
 Proof. vm_compute. reflexivity. Qed.
 
@@ -80,20 +80,20 @@ Definition same_events_bc (o : outcome bfst) (o' : outcome bcst) : Prop :=
   | _, _ => False
   end.
 
-Theorem C02_level0_source_to_bytecode : forall w e src ast blk fuse (p : bprog) cs f o,
+Theorem C02_level0_source_to_bytecode : forall w e src ast blk fuse (p : bprog) zs cs f o,
   ast_of_source src = Some ast -> parse w src = POk blk ->
-  tv_check w fuse blk (bp_code p) cs = true ->
+  tv_check w fuse blk (bp_code p) zs cs = true ->
   bf_exec w e f ast bf0 = o -> terminal o ->
   exists fuel', same_events_bc o (bc_run w e false 0 fuel' p).
 Proof.
-  intros w e src ast blk fuse p cs f o HA HP HT HO T.
+  intros w e src ast blk fuse p zs cs f o HA HP HT HO T.
   assert (Hw : 0 <= w) by (unfold tv_check in HT; apply andb_prop in HT; destruct HT as [H _]; apply Z.leb_le; exact H).
   destruct (level0_correct w e src ast f o Hw HA HO T) as (blk' & fi & o' & HP' & HR & SE).
   rewrite HP in HP'. injection HP' as <-.
   destruct o as [s|s|s|q s|s]; try contradiction; destruct o' as [s'|s'|s'|q' s'|s']; try contradiction; cbn [same_events] in SE.
-  - destruct (proj1 (tv_sound w fuse blk p cs e 0 HT fi s') HR) as (g & sb & E1 & E2).
+  - destruct (proj1 (tv_sound w fuse blk p zs cs e 0 HT fi s') HR) as (g & sb & E1 & E2).
     exists g. rewrite E1. cbn [same_events_bc]. congruence.
-  - destruct (proj2 (tv_sound w fuse blk p cs e 0 HT fi s') HR) as (g & sb & E1 & E2).
+  - destruct (proj2 (tv_sound w fuse blk p zs cs e 0 HT fi s') HR) as (g & sb & E1 & E2).
     exists g. rewrite E1. cbn [same_events_bc]. congruence.
 Qed.
 Print Assumptions C02_level0_source_to_bytecode.
